@@ -7,6 +7,7 @@ No bound on strings, codes, chain depths, step counts, instance counts or schedu
 -/
 import Pandora.Bridge.GrpcStatus
 import Pandora.Proofs.C10
+import Pandora.Proofs.C10R2
 
 namespace Pandora.Props.C10
 open Pandora.Model.C10 Pandora.Spec.C10 Pandora.Proofs.C10
@@ -456,6 +457,159 @@ theorem C10_sample_id (cfg : AutoTagCfg) (s : HttpShot) (hc : s.connectHook = no
     | response st b => cases b <;> (simp [ho] at hr; subst hr; rfl)
     | doPanic => simp [ho] at hr; subst hr; rfl
 
+/-! ## the sample pool, setter level -/
+
+/-- `BaseGun.Shoot` (with `GunAmmo.Request`) is a sequence of setter calls — `SetID`, `AddTag`, `SetProtoCode`, `SetErr` —
+on a freshly acquired sample; the decision tree `shootHttp` is what those calls leave on it. -/
+theorem C10_shoot_as_setters (cfg : AutoTagCfg) (s : HttpShot) (hc : s.connectHook = none) :
+    (shootHttp cfg s).reports = [applyOps (fresh s.ammoTag) (httpOps cfg s)] :=
+  shootHttp_as_ops cfg s hc
+
+/-- Samples are RECYCLED: an aggregator that releases them (phout) puts every reported sample back into the process-wide
+pool, and a later `Acquire` may hand out any of them (`choose`: any policy, `pool`: any initial contents, also samples of
+an earlier run). Because `Acquire` overwrites the whole struct, every line is what the setter calls of ITS request leave
+on a fresh sample: nothing a recycled sample carried (net code of a failed exchange, status, id, tags) shows.
+Second part: for the http gun these lines are exactly the samples of `shootHttp` — what a non-releasing (recording)
+aggregator sees, and what all the theorems above speak about. -/
+theorem C10_pool_reuse (choose : List Sample → Option Nat) (pool : List Sample) :
+    (∀ reqs : List (String × List SampleOp),
+        runRecycling acquire choose pool reqs = reqs.map fun r => applyOps (fresh r.1) r.2) ∧
+    (∀ (cfg : AutoTagCfg) (shots : List HttpShot), (∀ s ∈ shots, s.connectHook = none) →
+        runRecycling acquire choose pool (shots.map fun s => (s.ammoTag, httpOps cfg s)) =
+          shots.flatMap fun s => (shootHttp cfg s).reports) := by
+  refine ⟨runRecycling_acquire choose pool, ?_⟩
+  intro cfg shots h
+  rw [runRecycling_acquire]
+  induction shots with
+  | nil => simp
+  | cons s rest ih =>
+    have hs := shootHttp_as_ops cfg s (h s (List.mem_cons_self ..))
+    have ih' := ih (fun t ht => h t (List.mem_cons_of_mem _ ht))
+    simp only [List.map_cons, List.flatMap_cons, hs, List.cons_append, List.nil_append]
+    simp only [List.map_map] at ih' ⊢
+    rw [← ih']
+
+/-- The same claim for an `Acquire` that only re-tags a recycled sample is FALSE: the net code of a failed exchange shows
+on the next request's line (why the whole-struct assignment in `Acquire`, regenerated as `srcAcquire`, matters). -/
+def C10_pool_reuse_keeping_statement : Prop :=
+  ∀ (choose : List Sample → Option Nat) (pool : List Sample) (reqs : List (String × List SampleOp)),
+    runRecycling acquireKeeping choose pool reqs = reqs.map fun r => applyOps (fresh r.1) r.2
+
+theorem C10_pool_reuse_keeping_counterexample : ¬ C10_pool_reuse_keeping_statement := by
+  intro h
+  have := h (fun p => if p.isEmpty then none else some 0) [] [("a", [.setErr .other]), ("b", [.setProto 200])]
+  revert this
+  decide
+
+/-! ## a gRPC target that goes away in the middle of a run -/
+
+/-- The target goes away while a call is in flight (`kill` on a request whose call is made): still exactly one sample per
+request; that call and every later call that is made are reported with the documented code of the client-side status
+Unavailable (503); requests that are never sent (unknown method, unmarshalable or ill-typed payload) keep their code;
+requests before that moment are not affected. -/
+theorem C10_grpc_target_gone :
+    (∀ gone reqs, (runGrpcGone gone reqs).length = reqs.length) ∧
+    (∀ reqs, runGrpcGone true reqs =
+        reqs.map fun r => ({ tags := r.1, id := 0, proto := grpcProto (afterGone r.2.1), net := 0 } : Sample)) ∧
+    (∀ o, grpcProto (afterGone o) = if isInvoked o then docTable 14 else grpcProto o) ∧
+    (∀ tag o rest, isInvoked o = true →
+        runGrpcGone false ((tag, o, true) :: rest) = runGrpcGone true ((tag, o, true) :: rest)) ∧
+    (∀ tag o rest, runGrpcGone false ((tag, o, false) :: rest) = (shootGrpc tag o).reports ++ runGrpcGone false rest) := by
+  refine ⟨?_, ?_, ?_, ?_, ?_⟩
+  · intro gone reqs
+    rw [runGrpcGone_eq, ← effectiveOutcomes_length gone reqs]
+    generalize effectiveOutcomes gone reqs = l
+    induction l with
+    | nil => simp
+    | cons r rest ih => rw [List.flatMap_cons, List.length_append, ih]; simp [shootGrpc]; omega
+  · intro reqs
+    rw [runGrpcGone_eq, effectiveOutcomes_gone]
+    induction reqs with
+    | nil => simp
+    | cons r rest ih => simp [shootGrpc] at ih ⊢; exact ih
+  · intro o
+    have h14 : grpcToHttp 14 = docTable 14 := by decide
+    cases o <;> simp [afterGone, isInvoked, grpcProto, h14]
+  · intro tag o rest ho
+    simp [runGrpcGone, ho]
+  · intro tag o rest
+    simp [runGrpcGone]
+
+/-- A request that was never sent is never reported with the code of an answered call with status OK (what the Spec
+demands of such a request: there is no call status to map). -/
+theorem C10_never_sent_not_ok :
+    (∀ (tag : String) (o : GrpcOutcome), isInvoked o = false → ∀ r ∈ (shootGrpc tag o).reports, r.proto ≠ docTable 0) ∧
+    (∀ (scn : String) (s : GrpcStep), (∀ c p, s.outcome ≠ .invoked c p) → ∀ r ∈ (stepGrpc scn s).1, r.proto ≠ docTable 0) := by
+  constructor
+  · intro tag o ho r hr
+    cases o <;> simp [isInvoked] at ho <;> (simp [shootGrpc, grpcProto] at hr; subst hr; simp [docTable])
+  · intro scn s ho r hr
+    cases h : s.outcome with
+    | invoked c p => exact absurd h (ho c p)
+    | prepErr => simp [stepGrpc, h, grpcStepProto] at hr; subst hr; simp [docTable]
+    | unknownMethod => simp [stepGrpc, h, grpcStepProto] at hr; subst hr; simp [docTable]
+    | badPayload => simp [stepGrpc, h, grpcStepProto] at hr; subst hr; simp [docTable]
+
+/-! ## the executable Spec accepts the model -/
+
+/-- the ground truth the harness hands to the Spec for an outcome of the http gun -/
+inductive TruthFor : HttpOutcome → Truth → Prop
+  | received (st : Nat) : TruthFor (.response st none) (.received st)
+  | broken (st : Nat) (e : Err) : ErrnoNonzero e → TruthFor (.response st (some e)) (.bodyBroken st)
+  | failed (e : Err) : ErrnoNonzero e → TruthFor (.doErr e) .failed
+  | timedOut (e : Err) : IsTimeout e → TruthFor (.doErr e) .timedOut
+
+/-- The predicates that judge the REAL guns' samples in the correspondence run (`Spec.C10.judgeHttp`, `judgeGrpc`,
+`judgeShots`) accept what the model reports, for every input: the http gun under every setting and outcome (given the
+ground truth of that outcome); the gRPC gun on any list of requests, also when the target goes away in the middle; a
+gRPC scenario shot; `n` shots of an http scenario. So "the Spec fails on an observation" and "the observation differs
+from the model" never disagree about a behaviour the model exhibits. -/
+theorem C10_spec_accepts_model :
+    (∀ (cfg : AutoTagCfg) (s : HttpShot) (t : Truth), s.connectHook = none → s.invalid = false → TruthFor s.outcome t →
+        judgeHttp (expectedTag cfg.enabled cfg.uriElements cfg.noTagOnly s.ammoTag s.path) t
+          ((shootHttp cfg s).reports.map toObs) = "ok") ∧
+    (∀ (gone : Bool) (reqs : List (String × GrpcOutcome × Bool)),
+        judgeGrpc ((effectiveOutcomes gone reqs).map fun r => (r.1, grpcTruth r.2))
+          ((runGrpcGone gone reqs).map toObs) = "ok") ∧
+    (∀ (scn : String) (steps : List GrpcStep),
+        judgeGrpc ((steps.take (executedGrpcSteps steps)).map (grpcStepTruth scn))
+          ((shootGrpcScenario scn steps).reports.map toObs) = "ok") ∧
+    (∀ (scn : String) (steps : List Step) (n : Nat), NoPanic steps →
+        judgeShots scn (steps.map stepTruthOf) n
+          ((List.replicate n (shootScenario scn steps).reports).flatten.map toObs) = "ok") := by
+  have htab : ∀ c, grpcToHttp c = docTable c := fun c =>
+    (Bridge.GrpcStatus.grpcToHttp_eq c).symm.trans (C10_grpc_table c)
+  refine ⟨?_, ?_, ?_, ?_⟩
+  · intro cfg s t hc hv ht
+    have htag := httpTag_eq_expected cfg s.ammoTag s.path
+    unfold shootHttp
+    rw [hc]
+    simp only [hv]
+    generalize ho : s.outcome = o at ht
+    cases ht with
+    | received st => simp [judgeHttp, toObs, htag]
+    | broken st e hz => simp [judgeHttp, toObs, htag, getErrno_ne_zero e hz]
+    | failed e hz => simp [judgeHttp, toObs, htag, getErrno_ne_zero e hz]
+    | timedOut e hto =>
+      have h110 : getErrno e = 110 := by simp [getErrno, hto.1, hto.2, timeoutErrno]
+      simp [judgeHttp, toObs, htag, h110]
+  · intro gone reqs
+    rw [runGrpcGone_eq]
+    exact judgeGrpc_accepts htab _
+  · intro scn steps
+    rw [shootGrpcScenario_reports]
+    exact judgeGrpc_accepts_steps htab scn _
+  · intro scn steps n hp
+    apply judgeShots_of_seq
+    have hrep := (shootScenario_reports scn steps hp).1
+    have hflat : (List.replicate n (shootScenario scn steps).reports).flatten.map toObs
+        = (List.replicate n ((shootScenario scn steps).reports.map toObs)).flatten := by
+      simp [List.map_flatten, List.map_replicate]
+    rw [hflat, hrep]
+    apply judgeShotsSeq_accepts
+    · rw [executed_map]; simp
+    · rw [executed_map]; exact judgeShot_accepts scn _
+
 /-! ## non-vacuity: concrete non-trivial inputs meeting the hypotheses -/
 
 -- the documented example: /my/very/deep/page with uri-elements 2 gives /my/very
@@ -496,5 +650,25 @@ example : ([3, 2, 1] : List Nat).Perm [1, 2, 3] := by decide
 -- three instances interleaved
 example : runIds 0 ["i1", "i2", "i1", "i3", "i2"] = [("i1", 1), ("i2", 2), ("i1", 3), ("i3", 4), ("i2", 5)] := by decide
 example : (shootGrpc "tg" (.invoked 14)).reports = [{ tags := "tg", id := 0, proto := 503, net := 0 }] := by decide
+-- round 2: a recycled sample that carried a failed exchange and an id; the line of the next request shows none of it
+example : runRecycling acquire (fun p => if p.isEmpty then none else some 0) [{ tags := "old", id := 9, proto := 503, net := 999 }]
+    [("", [.setID 1, .addTagIfEmpty "__EMPTY__", .setProto 200])] = [{ tags := "__EMPTY__", id := 1, proto := 200, net := 0 }] := by decide
+example : runRecycling acquireKeeping (fun p => if p.isEmpty then none else some 0) [{ tags := "old", id := 9, proto := 503, net := 999 }]
+    [("", [.setID 1, .addTagIfEmpty "__EMPTY__", .setProto 200])] = [{ tags := "__EMPTY__", id := 1, proto := 200, net := 999 }] := by decide
+example : httpOps ⟨true, 1, false⟩ { ammoTag := "t", id := 7, path := "/a/b", outcome := .response 503 (some .other) }
+    = [.setID 7, .addTag "/a", .addTagIfEmpty "__EMPTY__", .setProto 503, .setErr .other] := by decide
+-- the target goes away during the second call: 200, then 503 for every call that is made, 0 / 400 for requests never sent
+example : (runGrpcGone false [("a", .invoked 0, false), ("b", .invoked 0, true), ("c", .invoked 5, false),
+    ("d", .unknownMethod, false), ("e", .badPayload, false)]).map (·.proto) = [200, 503, 503, 0, 400] := by decide
+example : isInvoked (.invoked 5) = true := rfl
+example : TruthFor (.doErr (.urlError .timeout)) .timedOut := .timedOut _ (by simp [IsTimeout, isNetError, hasTimeout])
+example : TruthFor (.response 503 (some (.opError (.errno 104)))) (.bodyBroken 503) := .broken _ _ (by simp [ErrnoNonzero])
+example : judgeShots "scn" ([⟨"a", .received 200 .ok⟩, ⟨"b", .received 500 .err⟩, ⟨"c", .received 200 .ok⟩].map stepTruthOf) 2
+    ((List.replicate 2 (shootScenario "scn" [⟨"a", .received 200 .ok⟩, ⟨"b", .received 500 .err⟩, ⟨"c", .received 200 .ok⟩]).reports).flatten.map toObs) = "ok" := by decide
+-- ... and the doubled sample of a step is named as a COUNT failure
+example : judgeShots "s" [("a", .passed 200), ("b", .failedStep)] 1
+    [⟨"s.a", 0, 200, 0⟩, ⟨"s.b", 0, 500, 0⟩, ⟨"s.b|__EMPTY__", 0, 0, 999⟩]
+    = "fail:count:step s.b executed 1 time(s) but 2 sample(s) carry its tag" := by decide
+example : judgeGrpc [("m", none)] [⟨"m", 0, 200, 0⟩] ≠ "ok" := by decide
 
 end Pandora.Props.C10
